@@ -399,7 +399,7 @@ Qed.
 Fixpoint cst_ok (c : cst) : bool :=
   match c with
   | CNull | CTrue | CFalse => true
-  | CNum n => no_ctl n
+  | CNum n => no_ctl n && negb (beq n [])
   | CStr b => no_ctl b
   | CArr _ es => forallb (fun e => cst_ok (snd (fst e))) es
   | CObj _ ms => forallb (fun m => no_ctl (snd (fst (fst m))) && cst_ok (snd (fst (snd m)))) ms
@@ -417,11 +417,25 @@ Proof.
     apply N.eqb_eq in E; subst y. rewrite (IH _ _ H). reflexivity.
 Qed.
 
+Lemma pnum_nonempty s n r : pnum s = Some (n, r) -> n <> [].
+Proof.
+  unfold pnum. destruct (p_sign s) as [sg s1].
+  destruct (p_int s1) as [[ip s2]|] eqn:E2; [|discriminate].
+  destruct (p_frac s2) as [[fp s3]|]; [|discriminate]. destruct (p_exp s3) as [[ep s4]|]; [|discriminate].
+  intros H; injection H as <- <-.
+  assert (ip <> []).
+  { unfold p_int in E2. destruct s1 as [|c s']; [discriminate|]. destruct (c =? 48); [injection E2 as <- <-; discriminate|].
+    destruct (is_digit c); [|discriminate]. destruct (digits s'). injection E2 as <- <-. discriminate. }
+  destruct sg; [|discriminate]. destruct ip; [contradiction | discriminate].
+Qed.
+
 Lemma pscalar_ok s c r : pscalar s = Some (c, r) -> cst_ok c = true.
 Proof.
   unfold pscalar. intros H. break H; try (injection H as <- <-; reflexivity).
-  injection H as <- <-. cbn [cst_ok]. match goal with E : pnum _ = Some _ |- _ => apply pnum_props in E as [_ E] end.
-  apply num_chars_no_ctl; assumption.
+  injection H as <- <-. cbn [cst_ok].
+  match goal with E : pnum _ = Some _ |- _ => pose proof (pnum_nonempty _ _ _ E) as Hne; apply pnum_props in E as [_ E] end.
+  apply andb_true_iff. split; [apply num_chars_no_ctl; assumption|].
+  destruct (beq_spec b []); [contradiction | reflexivity].
 Qed.
 
 Lemma parser_ok f :
@@ -579,7 +593,7 @@ Proof.
   - exact Hacc.
   - exact Hacc.
   - exact Hacc.
-  - rewrite no_ctl_app, Hok, Hacc. reflexivity.
+  - apply andb_true_iff in Hok as [Hok _]. rewrite no_ctl_app, Hok, Hacc. reflexivity.
   - rewrite no_ctl_cons, no_ctl_app, (strf_ok _ Hok), no_ctl_cons, Hacc. reflexivity.
   - rewrite no_ctl_cons. cbn [negb N.ltb N.compare Pos.compare Pos.compare_cont andb].
     destruct es as [|e0 es0]; [cbn [app]; rewrite no_ctl_cons, Hacc; reflexivity|].
@@ -602,4 +616,21 @@ Proof.
   unfold compact_plain. destruct (parse_doc p) as [[[w c] w1]|] eqn:E; [|discriminate].
   intros H; injection H as <-. unfold ccompact_plain.
   apply cprint_no_ctl; [auto | exact (parse_doc_ok _ _ _ _ E) | reflexivity].
+Qed.
+
+(* the exact text of a parsed value is never empty *)
+Lemma ctext_nonempty c acc : cst_ok c = true -> ctext c acc <> [].
+Proof.
+  unfold ctext. destruct c; cbn [cprint cst_ok]; try discriminate.
+  intros H. apply andb_true_iff in H as [_ H]. destruct raw; [discriminate H | discriminate].
+Qed.
+
+Lemma raw_members_nonempty s l : raw_members s = Some l -> Forall (fun kv => snd kv <> []) l.
+Proof.
+  unfold raw_members. destruct (parse_doc s) as [[[w c] w1]|] eqn:E; [|discriminate].
+  pose proof (parse_doc_ok _ _ _ _ E) as Hok.
+  destruct c; try discriminate; intros H; injection H as <-; [constructor|].
+  cbn [cst_ok] in Hok. apply Forall_forall. intros kv Hin. apply in_map_iff in Hin as (m & <- & Hm).
+  cbn [snd]. apply ctext_nonempty. rewrite forallb_forall in Hok. specialize (Hok m Hm).
+  apply andb_true_iff in Hok as [_ Hok]. exact Hok.
 Qed.
